@@ -36,6 +36,39 @@ import (
 type kworld struct {
 	dt string
 	t  *tensor.Dense
+	// the tensor the current one was sliced from (nil when it is no view): a data-writing step on
+	// the view must leave every cell of the parent that is not an element of the view as it was
+	parent *tensor.Dense
+}
+
+// outsideCells: the raw data of the parent at the storage positions the view does not address
+func (w *kworld) outsideCells() (out []int, ok bool) {
+	defer func() {
+		if e := recover(); e != nil {
+			ok = false
+		}
+	}()
+	if w.parent == nil || w.t == nil {
+		return nil, false
+	}
+	p, v := w.parent, w.t
+	n := p.DataSize()
+	if n == 0 {
+		return nil, false
+	}
+	isz := int(p.Dtype().Size())
+	off := (int(v.Uintptr()) - int(p.Uintptr())) / isz
+	inView := make(map[int]bool)
+	it := tensor.FlatIteratorFromDense(v)
+	for i, err := it.Next(); err == nil; i, err = it.Next() {
+		inView[off+i] = true
+	}
+	for i := 0; i < n; i++ {
+		if !inView[i] {
+			out = append(out, valTok(p.Get(i)))
+		}
+	}
+	return out, true
 }
 
 func kBits(m []bool) string {
@@ -158,8 +191,27 @@ func kAxis(f []string) []int {
 var kReadOnly = map[string]bool{"cnt": true, "ncnt": true, "any": true, "all": true, "nmc": true, "mc": true,
 	"clu": true, "clm": true, "nme": true, "me": true, "iter": true, "fill": true, "bin": true}
 
-// mstep executes one mask operation: (observation, stop)
+// mstep executes one mask operation: (observation, stop); a data-writing step on a view is followed
+// by a look at the parent's other cells (mark at the end of the observation)
 func (w *kworld) mstep(op string) (out string, stop bool) {
+	f0 := strings.SplitN(op, ":", 2)[0]
+	writes := f0 == "filli" || (f0 == "bin" && strings.HasSuffix(op, ":unsafe"))
+	var before []int
+	var okb bool
+	if writes {
+		before, okb = w.outsideCells()
+	}
+	out, stop = w.mstep1(op)
+	if writes && okb {
+		after, oka := w.outsideCells()
+		if oka && fmt.Sprint(before) != fmt.Sprint(after) {
+			out += " !parent-changed"
+		}
+	}
+	return out, stop
+}
+
+func (w *kworld) mstep1(op string) (out string, stop bool) {
 	f := strings.Split(op, ":")
 	defer func() {
 		if e := recover(); e != nil {
@@ -259,6 +311,9 @@ func (w *kworld) mstep(op string) (out string, stop bool) {
 		if err != nil {
 			return "err " + kObs(w.t), false
 		}
+		if w.parent == nil {
+			w.parent = t
+		}
 		w.t = v.(*tensor.Dense)
 		return st(nil), false
 	case "slinto": // the other spelling: SliceInto a fresh *Dense
@@ -270,6 +325,7 @@ func (w *kworld) mstep(op string) (out string, stop bool) {
 		return st(nil), false
 	case "clone":
 		w.t = t.Clone().(*tensor.Dense)
+		w.parent = nil
 		return st(nil), false
 	case "mat":
 		w.t = t.Materialize().(*tensor.Dense)
@@ -547,6 +603,39 @@ func kShapes(n int, full bool) [][]int {
 var kCoreDts = []string{"i", "i8", "u8", "f32", "f64"}
 var kMoreDts = []string{"i16", "i32", "i64", "u", "u16", "u32", "u64", "str", "b", "c128"}
 
+// maskPredSweep: every masking predicate on every element type with the SAME systematically chosen
+// comparands (negative reference values with relative and absolute tolerances included): the
+// per-type instances of the generated predicates must all compute the one template (C15, C17)
+func maskPredSweep(emit func(string)) {
+	for _, dt := range append(append([]string{}, kCoreDts...), kMoreDts...) {
+		if dt == "b" || dt == "c128" || dt == "c64" || dt == "str" {
+			continue
+		}
+		signed := !strings.HasPrefix(dt, "u")
+		for _, base := range []int{-5, 0} {
+			if base < 0 && !signed {
+				continue
+			}
+			var ops []string
+			for _, x := range []int{base + 1, base + 3, base + 6} {
+				for _, p := range []string{"eq", "ne", "gt", "ge", "lt", "le"} {
+					ops = append(ops, fmt.Sprintf("%s:%d", p, x))
+				}
+				for _, rtol := range []int{0, 1} {
+					for _, atol := range []int{0, 1, 2} {
+						ops = append(ops, fmt.Sprintf("val:%d:%d:%d", x, rtol, atol))
+					}
+					ops = append(ops, fmt.Sprintf("val:%d:%d", x, rtol))
+				}
+				ops = append(ops, fmt.Sprintf("in:%d:%d", x, x+2), fmt.Sprintf("out:%d:%d", x, x+2), fmt.Sprintf("in:%d:%d", x+2, x), fmt.Sprintf("out:%d:%d", x+2, x))
+			}
+			for _, o := range ops {
+				emit(fmt.Sprintf("mk %s 0 new:rm:8:%d hard;%s", dt, base, o))
+			}
+		}
+	}
+}
+
 func genC15(tier string, r *rng, emit func(string)) {
 	thorough := tier == "thorough"
 	mk := func(dt string, idx int, prog, mops string) {
@@ -607,6 +696,7 @@ func genC15(tier string, r *rng, emit func(string)) {
 	if thorough {
 		reps = 4
 	}
+	maskPredSweep(emit)
 	predRound(kCoreDts, srcs, reps)
 	predRound(kMoreDts, srcs[:3], reps)
 	// two predicates in a row (hard accumulates, soft replaces), reset, MaskFromSlice
@@ -688,6 +778,12 @@ func genC15(tier string, r *rng, emit func(string)) {
 	}
 	tcs := []tcase{
 		{[]int{2, 3}, []string{"_", "1,0"}, []string{"0.1.0/_", "_/1.3.1", "1.2.0/0.2.1", "_/0.3.2", "0.2.1/1.2.0"}},
+		// non-square matrices whose transposition permutes in longer cycles, and a rank-3 tensor
+		{[]int{3, 4}, []string{"_"}, []string{"_/1.2.0", "_/0.3.2", "1.3.1/1.3.1"}},
+		{[]int{4, 3}, []string{"1,0"}, []string{"_/2.3.0", "1.3.1/_"}},
+		{[]int{2, 5}, []string{"_"}, []string{"_/1.4.1"}},
+		{[]int{3, 3}, []string{"_"}, []string{"_/1.2.0", "1.3.1/0.3.2"}},
+		{[]int{2, 3, 4}, []string{"_", "1,0,2", "2,0,1"}, []string{"_/_/1.2.0", "_/1.2.0/_", "0.2.1/0.2.1/0.3.2"}},
 		{[]int{4}, nil, []string{"1.3.1", "0.4.2", "2.3.0"}},
 		{[]int{1, 4}, []string{"_"}, []string{"_/1.3.1"}},
 		{[]int{3, 1}, []string{"1,0"}, []string{"1.3.1/_"}},
@@ -737,6 +833,10 @@ func genC15(tier string, r *rng, emit func(string)) {
 					}
 					q := after[r.intn(len(after))]
 					mk(dt, 0, prog, fmt.Sprintf("setmask:%s;slice:%s;%s", bs, sl, q))
+					if k%2 == 0 {
+						// writing through a masked view: only the view's own masked elements change
+						mk(dt, 0, prog, fmt.Sprintf("setmask:%s;slice:%s;filli:77", bs, sl))
+					}
 					if len(tc.axes) > 0 {
 						ax := tc.axes[r.intn(len(tc.axes))]
 						mk(dt, 0, prog, fmt.Sprintf("setmask:%s;T:%s;slice:%s", bs, ax, sl))
